@@ -104,15 +104,30 @@ Definition av_client (rq : hreq) : option id :=
 Definition is_served (allow : option (list id)) (rq : hreq) : Prop :=
   served rq /\ exists c, rq_cid rq = COk c /\ client_id_header allow (COk c) = inl c.
 
+Lemma as_accepts_empty v : as_accepts empty_cs v = false.
+Proof.
+  unfold as_accepts, empty_cs, snap_last. cbn [a_snap a_vers a_latest option_map oid_eqb negb andb].
+  unfold SNAPSHOT_SEARCH_LEN. cbn [search_spec].
+  destruct (N.eqb nil_id v) eqn:Ev.
+  - apply N.eqb_eq in Ev. subst v. rewrite N.eqb_refl. reflexivity.
+  - cbn [andb oid_eqb]. rewrite N.eqb_refl. cbn. reflexivity.
+Qed.
+
+(* the request is an AddSnapshot for a client that the coarse store holds empty and the
+   sequential store does not hold at all (the creation window of finding F3) *)
+Definition in_window (allow : option (list id)) (a' a : astore) (rq : hreq) : Prop :=
+  is_served allow rq /\ exists c, as_client rq = Some c /\ a_cl a' c = None /\ a_cl a c = Some empty_cs.
+
 (* ---- a whole request on the sequential store a' and on the coarse store a ---- *)
-Lemma hstep_ext cfg allow W a' a rq E : cfg_ok cfg -> Inv W a' -> Inv W a -> hfresh_ok W rq E -> ext a' a ->
-  (is_served allow rq -> forall c, as_client rq = Some c -> a_cl a c <> Some empty_cs) ->
-  fst (hstep_a cfg allow a' rq E) = fst (hstep_a cfg allow a rq E) /\
+Lemma hstep_ext_g cfg allow W a' a rq E : cfg_ok cfg -> Inv W a' -> Inv W a -> hfresh_ok W rq E -> ext a' a ->
+  (fst (hstep_a cfg allow a' rq E) = fst (hstep_a cfg allow a rq E) \/
+   (in_window allow a' a rq /\ fst (hstep_a cfg allow a' rq E) = default_headers (encode RNoClient) /\
+    fst (hstep_a cfg allow a rq E) = default_headers (encode RSnapAck))) /\
   ext_after a' a (snd (hstep_a cfg allow a' rq E)) (snd (hstep_a cfg allow a rq E)) /\
   (is_served allow rq -> forall c, av_client rq = Some c ->
      a_cl (snd (hstep_a cfg allow a' rq E)) c = a_cl (snd (hstep_a cfg allow a rq E)) c).
 Proof.
-  intros Hcfg HI' HI Hf He Hwin.
+  intros Hcfg HI' HI Hf He.
   destruct (not_served_refused cfg allow rq) as [(st & Hst & Hr)|(Hsv & c & Hcid & Hc)].
   - (* answered by the routing function: the store is not consulted *)
     assert (Hns : ~ is_served allow rq).
@@ -129,7 +144,7 @@ Proof.
       - unfold h_get_snapshot in Hr. cbn [rq_cid] in Hr. rewrite Hc in Hr. destruct Hr as [Hr|[Hr _]]; discriminate. }
     unfold hstep_a. rewrite !http_step_route.
     destruct Hr as [Hr|[Hr _]]; rewrite Hr; cbn [run_hprog fst snd];
-      (split; [reflexivity|split; [apply ext_after_same; exact He|intros H; contradiction]]).
+      (split; [left; reflexivity|split; [apply ext_after_same; exact He|intros H; contradiction]]).
   - (* one of the four protocol operations *)
     assert (Hsd : is_served allow rq) by (split; [exact Hsv|eauto]).
     destruct (hstep_reach cfg allow W a' rq E Hcfg HI' Hf) as (_ & _ & Ho').
@@ -151,7 +166,7 @@ Proof.
                   (inv_ensured W a' c HI0') (inv_ensured W a c HI0) Hf1) as (Hr & Hea & Hcc); auto.
       { unfold of_client. cbn. apply N.eqb_refl. }
       rewrite Hl1', Hl1 in Hr, Hea, Hcc. cbn [fst snd] in Hr, Hea, Hcc.
-      split; [rewrite Hr; reflexivity|]. split.
+      split; [left; rewrite Hr; reflexivity|]. split.
       * intros c2. destruct (Hea c2) as [H|(H1 & H2 & H3 & H4)]; [left; exact H|].
         rewrite ensured_lookup in H1, H2. destruct (N.eqb_spec c2 c) as [Heqc|Hne].
         -- destruct (a_cl a' c); discriminate.
@@ -162,28 +177,44 @@ Proof.
       * destruct (ext_step cfg W a' a (OGetChild c p) E c HI0' HI0 I) as (Hr & Hea & _); auto.
         { unfold of_client. cbn. apply N.eqb_refl. }
         rewrite Hl1', Hl1 in Hr, Hea. cbn [fst snd] in Hr, Hea.
-        split; [rewrite Hr; reflexivity|]. split; [exact Hea|]. intros _ c2 Hc2. discriminate Hc2.
+        split; [left; rewrite Hr; reflexivity|]. split; [exact Hea|]. intros _ c2 Hc2. discriminate Hc2.
       * rewrite gcv_step in Hl1', Hl1 by assumption. rewrite H1 in Hl1'. rewrite H2 in Hl1.
         assert (Hg : gcv_answer empty_cs p = RNotFound).
         { unfold gcv_answer, empty_cs. cbn [a_vers a_latest by_parent find]. rewrite N.eqb_refl, Bool.orb_true_r. reflexivity. }
-        rewrite Hg in Hl1. inversion Hl1'; inversion Hl1; subst. split; [reflexivity|].
+        rewrite Hg in Hl1. inversion Hl1'; inversion Hl1; subst. split; [left; reflexivity|].
         split; [apply ext_after_same; exact He|]. intros _ c2 Hc2. discriminate Hc2.
-    + (* add-snapshot: never in a creation window *)
+    + (* add-snapshot: in a creation window the coarse run declines (200) what the sequential run answers 404 *)
       destruct (He c) as [Heq|[H1 H2]].
       * destruct (ext_step cfg W a' a (OAddSnapshot c v (body_of cs)) E c HI0' HI0 I) as (Hr & Hea & _); auto.
         { unfold of_client. cbn. apply N.eqb_refl. }
         rewrite Hl1', Hl1 in Hr, Hea. cbn [fst snd] in Hr, Hea.
-        split; [rewrite Hr; reflexivity|]. split; [exact Hea|]. intros _ c2 Hc2. discriminate Hc2.
-      * exfalso. apply (Hwin Hsd c); [reflexivity|exact H2].
+        split; [left; rewrite Hr; reflexivity|]. split; [exact Hea|]. intros _ c2 Hc2. discriminate Hc2.
+      * rewrite as_step in Hl1', Hl1 by assumption. rewrite H1 in Hl1'. rewrite H2 in Hl1.
+        rewrite as_accepts_empty in Hl1. inversion Hl1'; inversion Hl1; subst.
+        split; [right; split; [split; [exact Hsd|exists c; split; [reflexivity|split; assumption]]|split; reflexivity]|].
+        split; [apply ext_after_same; exact He|]. intros _ c2 Hc2. discriminate Hc2.
     + (* get-snapshot *)
       destruct (He c) as [Heq|[H1 H2]].
       * destruct (ext_step cfg W a' a (OGetSnapshot c) E c HI0' HI0 I) as (Hr & Hea & _); auto.
         { unfold of_client. cbn. apply N.eqb_refl. }
         rewrite Hl1', Hl1 in Hr, Hea. cbn [fst snd] in Hr, Hea.
-        split; [rewrite Hr; reflexivity|]. split; [exact Hea|]. intros _ c2 Hc2. discriminate Hc2.
+        split; [left; rewrite Hr; reflexivity|]. split; [exact Hea|]. intros _ c2 Hc2. discriminate Hc2.
       * rewrite gs_step in Hl1', Hl1 by assumption. rewrite H1 in Hl1'. rewrite H2 in Hl1.
-        inversion Hl1'; inversion Hl1; subst. split; [reflexivity|].
+        inversion Hl1'; inversion Hl1; subst. split; [left; reflexivity|].
         split; [apply ext_after_same; exact He|]. intros _ c2 Hc2. discriminate Hc2.
+Qed.
+
+Lemma hstep_ext cfg allow W a' a rq E : cfg_ok cfg -> Inv W a' -> Inv W a -> hfresh_ok W rq E -> ext a' a ->
+  (is_served allow rq -> forall c, as_client rq = Some c -> a_cl a c <> Some empty_cs) ->
+  fst (hstep_a cfg allow a' rq E) = fst (hstep_a cfg allow a rq E) /\
+  ext_after a' a (snd (hstep_a cfg allow a' rq E)) (snd (hstep_a cfg allow a rq E)) /\
+  (is_served allow rq -> forall c, av_client rq = Some c ->
+     a_cl (snd (hstep_a cfg allow a' rq E)) c = a_cl (snd (hstep_a cfg allow a rq E)) c).
+Proof.
+  intros Hcfg HI' HI Hf He Hwin.
+  destruct (hstep_ext_g cfg allow W a' a rq E Hcfg HI' HI Hf He) as ([Hr|((Hsd & c & Has & _ & Hemp) & _)] & H2 & H3).
+  - auto.
+  - exfalso. apply (Hwin Hsd c Has Hemp).
 Qed.
 
 (* ---- the add-version loop, one transaction at a time ---- *)
@@ -269,20 +300,33 @@ Definition avreq (cfg : config) (allow : option (list id)) (G : list id) (rq : h
   In c G /\ In p G /\ http_handler cfg allow rq = hmap dh (av_loop AV_FUEL cfg c p d) /\
   as_client rq = None /\ av_client rq = Some c /\ is_served allow rq.
 
-Definition pok (cfg : config) (allow : option (list id)) (G W : list id) (a : astore) (E : env) (rq : hreq)
+(* Rr rq r0 r: the response r the overlapping run gave request rq is related to the response r0
+   of the one-at-a-time run (equality for the strict theorem; `win_rel` for the theorem that
+   delimits finding F3) *)
+Definition resp_rel := hreq -> hresp -> hresp -> Prop.
+Definition strict_rel : resp_rel := fun _ r0 r => r0 = r.
+Definition win_rel (allow : option (list id)) : resp_rel := fun rq r0 r =>
+  r0 = r \/ (is_served allow rq /\ as_client rq <> None /\
+             r0 = default_headers (encode RNoClient) /\ r = default_headers (encode RSnapAck)).
+(* the relation admits the one deviation of the creation window *)
+Definition admits_window (Rr : resp_rel) (allow : option (list id)) : Prop :=
+  forall rq, is_served allow rq -> as_client rq <> None ->
+    Rr rq (default_headers (encode RNoClient)) (default_headers (encode RSnapAck)).
+
+Definition pok (Rr : resp_rel) (cfg : config) (allow : option (list id)) (G W : list id) (a : astore) (E : env) (rq : hreq)
   (ro : option hresp) (ph : phase) : Prop :=
   match ph with
   | PhStart => ~ usedp W (e_fresh E) /\ ro = None
   | PhCreate c p d => ~ usedp W (e_fresh E) /\ ro = None /\ avreq cfg allow G rq c p d
   | PhRetry c p d => ~ usedp W (e_fresh E) /\ ro = None /\ avreq cfg allow G rq c p d /\ a_cl a c <> None
-  | PhAnswered r | PhDone r => ro = Some r
+  | PhAnswered r | PhDone r => exists r0, ro = Some r0 /\ Rr rq r0 r
   end.
 
-Lemma pok_other cfg allow G W W' a a' E rq ro ph :
-  pok cfg allow G W a E rq ro ph ->
+Lemma pok_other (Rr : resp_rel) cfg allow G W W' a a' E rq ro ph :
+  pok Rr cfg allow G W a E rq ro ph ->
   (forall c, a_cl a c <> None -> a_cl a' c <> None) ->
   (~ usedp W (e_fresh E) -> ~ usedp W' (e_fresh E)) ->
-  pok cfg allow G W' a' E rq ro ph.
+  pok Rr cfg allow G W' a' E rq ro ph.
 Proof.
   intros Hp Hpres Hfr. destruct ph as [|c p d|c p d|r|r]; cbn [pok] in *.
   - destruct Hp as [H1 H2]. auto.
@@ -332,7 +376,7 @@ Definition window_free_at := wfree_at AStoreB.
 Lemma empty_holds_nothing a c : a_cl a c = Some empty_cs -> holds_nothing AStoreB a c.
 Proof. intros H. unfold holds_nothing. cbn. rewrite H. reflexivity. Qed.
 
-Definition linv (cfg : config) (allow : option (list id)) (reqs : list (env * hreq)) (a0 : astore)
+Definition linv (Rr : resp_rel) (cfg : config) (allow : option (list id)) (reqs : list (env * hreq)) (a0 : astore)
   (c : sys AStoreB hresp) (done : list nat) : Prop :=
   let sr := seq_run AStoreB hresp a0 (handlers cfg allow reqs) done in
   owner c = None /\ length (th c) = length reqs /\ NoDup done /\
@@ -340,7 +384,7 @@ Definition linv (cfg : config) (allow : option (list id)) (reqs : list (env * hr
     Inv W (db c) /\ Inv W (snd sr) /\ incl (all_mentioned reqs) W /\ ext (snd sr) (db c) /\
     (forall i er ph, nth_error reqs i = Some er -> nth_error phs i = Some ph ->
        nth_error (th c) i = Some (pstate cfg allow (fst er) (snd er) ph) /\
-       pok cfg allow (all_mentioned reqs) W (db c) (fst er) (snd er) (resp_in hresp (fst sr) i) ph) /\
+       pok Rr cfg allow (all_mentioned reqs) W (db c) (fst er) (snd er) (resp_in hresp (fst sr) i) ph) /\
     (forall cc, a_cl (snd sr) cc = None -> a_cl (db c) cc <> None ->
        exists j p d, nth_error phs j = Some (PhRetry cc p d)).
 
@@ -433,13 +477,14 @@ Proof.
 Qed.
 
 (* ---- one coarse step keeps the linearization invariant ---- *)
-Lemma lin_step cfg allow U0 reqs a0 c done i c' :
+Lemma lin_step (Rr : resp_rel) cfg allow U0 reqs a0 c done i c' :
+  (forall rq r, Rr rq r r) ->
   cfg_ok cfg -> fresh_distinct U0 reqs ->
-  linv cfg allow reqs a0 c done -> cstep AStoreB hresp c i = Some c' ->
-  window_free_at reqs c i ->
-  linv cfg allow reqs a0 c' (next_done c' i done).
+  linv Rr cfg allow reqs a0 c done -> cstep AStoreB hresp c i = Some c' ->
+  window_free_at reqs c i \/ admits_window Rr allow ->
+  linv Rr cfg allow reqs a0 c' (next_done c' i done).
 Proof.
-  intros Hcfg [Hnd Hfr] (Hown & Hlen & Hndd & W & phs & Hlp & HI & HI' & HG & He & Hth & Hex) Hst Hwin.
+  intros Hrefl Hcfg [Hnd Hfr] (Hown & Hlen & Hndd & W & phs & Hlp & HI & HI' & HG & He & Hth & Hex) Hst Hwin.
   set (H := handlers cfg allow reqs) in *.
   set (G := all_mentioned reqs) in *.
   set (sr := seq_run AStoreB hresp a0 H done) in *.
@@ -462,10 +507,10 @@ Proof.
   (* (A) a step that does not complete the request *)
   assert (Hstutter : forall a1 ph',
             Inv W a1 -> ext (snd sr) a1 -> (forall c2, a_cl (db c) c2 <> None -> a_cl a1 c2 <> None) ->
-            pok cfg allow G W a1 E rq (resp_in hresp (fst sr) i) ph' ->
+            pok Rr cfg allow G W a1 E rq (resp_in hresp (fst sr) i) ph' ->
             (forall cc p d, ph <> PhRetry cc p d) ->
             (forall cc, a_cl (snd sr) cc = None -> a_cl a1 cc <> None -> a_cl (db c) cc <> None \/ exists p d, ph' = PhRetry cc p d) ->
-            linv cfg allow reqs a0 (@mkSys AStoreB hresp a1 None (upd (th c) i (pstate cfg allow E rq ph'))) done).
+            linv Rr cfg allow reqs a0 (@mkSys AStoreB hresp a1 None (upd (th c) i (pstate cfg allow E rq ph'))) done).
   { intros a1 ph' HI1 He1 Hpres Hpk' Hnr Hnew. unfold linv. fold H. fold sr. cbn [owner th db].
     split; [reflexivity|]. split; [rewrite len_upd; exact Hlen|]. split; [exact Hndd|].
     exists W, (upd phs i ph'). split; [rewrite len_upd; exact Hlp|]. split; [exact HI1|]. split; [exact HI'|].
@@ -476,7 +521,7 @@ Proof.
         split; [apply nth_upd_eq; lia|exact Hpk'].
       + rewrite nth_upd_ne in Hpj by exact Hne. rewrite nth_upd_ne by exact Hne.
         destruct (Hth j ej phj Hrj Hpj) as [Htj Hpj']. split; [exact Htj|].
-        apply (pok_other cfg allow G W W (db c) a1 _ _ _ _ Hpj' Hpres). auto.
+        apply (pok_other Rr cfg allow G W W (db c) a1 _ _ _ _ Hpj' Hpres). auto.
     - intros cc Hn1 Hn2. destruct (Hnew cc Hn1 Hn2) as [Hold|(p & d & Hph)].
       + destruct (Hex cc Hn1 Hold) as (j & p & d & Hj). exists j, p, d.
         destruct (Nat.eq_dec i j) as [Heq|Hne]; [subst j; rewrite Hpi in Hj; inversion Hj; exfalso; eapply Hnr; eauto|].
@@ -487,8 +532,8 @@ Proof.
             ~ usedp W (e_fresh E) -> resp_in hresp (fst sr) i = None ->
             (ph' = PhAnswered (fst (hstep_a cfg allow (db c) rq E)) \/ ph' = PhDone (fst (hstep_a cfg allow (db c) rq E))) ->
             (forall cc p d, ph = PhRetry cc p d -> av_client rq = Some cc /\ is_served allow rq) ->
-            (is_served allow rq -> forall cc, as_client rq = Some cc -> a_cl (db c) cc <> Some empty_cs) ->
-            linv cfg allow reqs a0 (@mkSys AStoreB hresp (snd (hstep_a cfg allow (db c) rq E)) None
+            ((is_served allow rq -> forall cc, as_client rq = Some cc -> a_cl (db c) cc <> Some empty_cs) \/ admits_window Rr allow) ->
+            linv Rr cfg allow reqs a0 (@mkSys AStoreB hresp (snd (hstep_a cfg allow (db c) rq E)) None
                                       (upd (th c) i (pstate cfg allow E rq ph'))) (done ++ [i])).
   { intros ph' Hf Hro Hph' Howner Hw.
     assert (Hfo : hfresh_ok W rq E).
@@ -497,7 +542,11 @@ Proof.
       - apply Hf. right. exact Hin. }
     destruct (hstep_reach cfg allow W (db c) rq E Hcfg HI Hfo) as (HIn & _ & _).
     destruct (hstep_reach cfg allow W (snd sr) rq E Hcfg HI' Hfo) as (HIn' & _ & _).
-    destruct (hstep_ext cfg allow W (snd sr) (db c) rq E Hcfg HI' HI Hfo He Hw) as (Hr & Hea & Hav).
+    destruct (hstep_ext_g cfg allow W (snd sr) (db c) rq E Hcfg HI' HI Hfo He) as (Hr0 & Hea & Hav).
+    assert (Hr : Rr rq (fst (hstep_a cfg allow (snd sr) rq E)) (fst (hstep_a cfg allow (db c) rq E))).
+    { destruct Hr0 as [Hr0|((Hsd & cw & Has & _ & Hemp) & Hr1 & Hr2)]; [rewrite Hr0; apply Hrefl|].
+      destruct Hw as [Hw|Hw]; [exfalso; apply (Hw Hsd cw Has Hemp)|].
+      rewrite Hr1, Hr2. apply Hw; [exact Hsd|congruence]. }
     assert (Hnin : ~ In i done).
     { intros Hin. apply (resp_in_done AStoreB hresp a0 H done i _ Hin HiH). exact Hro. }
     unfold linv. fold H. rewrite (seq_run_snoc AStoreB hresp a0 H done i _ HiH). fold sr.
@@ -511,11 +560,11 @@ Proof.
       + subst j. rewrite nth_upd_eq in Hpj by lia. inversion Hpj; subst phj.
         rewrite Hri in Hrj. inversion Hrj; subst ej. cbn [fst snd].
         split; [apply nth_upd_eq; lia|].
-        rewrite (resp_in_app_new hresp _ i _ Hro). destruct Hph' as [-> | ->]; cbn [pok]; f_equal; exact Hr.
+        rewrite (resp_in_app_new hresp _ i _ Hro). destruct Hph' as [-> | ->]; cbn [pok]; eexists; (split; [reflexivity|exact Hr]).
       + rewrite nth_upd_ne in Hpj by exact Hne. rewrite nth_upd_ne by exact Hne.
         destruct (Hth j ej phj Hrj Hpj) as [Htj Hpj']. split; [exact Htj|].
         rewrite (resp_in_app_other hresp) by exact (not_eq_sym Hne).
-        apply (pok_other cfg allow G W (hused_step W rq E) (db c) _ _ _ _ _ Hpj').
+        apply (pok_other Rr cfg allow G W (hused_step W rq E) (db c) _ _ _ _ _ Hpj').
         * intros c2 Hc2. apply (hstep_presence cfg allow W (db c) rq E c2 Hcfg HI Hfo Hc2).
         * apply (Hothers j ej Hrj Hne).
     - intros cc Hn1 Hn2. destruct (Hea cc) as [Heq|(H1 & H2 & H3 & H4)]; [exfalso; apply Hn2; rewrite <- Heq; exact Hn1|].
@@ -532,8 +581,9 @@ Proof.
   destruct ph as [|cc p d|cc p d|r|r]; cbn [pstate pok] in *.
   - (* the request has not started *)
     destruct Hpk as [Hf Hro].
-    assert (Hw : is_served allow rq -> forall c2, as_client rq = Some c2 -> a_cl (db c) c2 <> Some empty_cs).
-    { intros Hsd c2 Hc2 Hemp. apply (Hwin (E, rq) c2 _ Hri Hc2 Hi); [apply served_at_txn; exact Hsd|].
+    assert (Hw : (is_served allow rq -> forall c2, as_client rq = Some c2 -> a_cl (db c) c2 <> Some empty_cs) \/ admits_window Rr allow).
+    { destruct Hwin as [Hwin|Hadm]; [left|right; exact Hadm].
+      intros Hsd c2 Hc2 Hemp. apply (Hwin (E, rq) c2 _ Hri Hc2 Hi); [apply served_at_txn; exact Hsd|].
       apply empty_holds_nothing. exact Hemp. }
     assert (Hnr : forall c2 p2 d2, PhStart = PhRetry c2 p2 d2 -> av_client rq = Some c2 /\ is_served allow rq)
       by (intros c2 p2 d2 Hx; discriminate Hx).
@@ -618,18 +668,20 @@ Proof.
       [|cbn [th]; apply nth_upd_eq; apply nth_error_Some; congruence|reflexivity].
     apply Hcm; auto.
     + intros c2 p2 d2 Hx. inversion Hx; subst. auto.
-    + intros _ c2 Hc2. rewrite Has in Hc2. discriminate Hc2.
+    + left. intros _ c2 Hc2. rewrite Has in Hc2. discriminate Hc2.
   - (* answered: the thread retires *)
     inversion Hst; subst c'; clear Hst.
-    rewrite (next_done_in _ i done (Hin_done r Hpk)).
+    destruct Hpk as (r0 & Hr0 & HRr).
+    assert (Hpk : exists r0, resp_in hresp (fst sr) i = Some r0 /\ Rr rq r0 r) by eauto.
+    rewrite (next_done_in _ i done (Hin_done r0 Hr0)).
     apply (Hstutter (db c) (PhDone r)); auto.
     + intros c2 p2 d2 Hx. discriminate Hx.
   - discriminate Hst.
 Qed.
 
 (* ---- every coarse run from a store satisfying the invariant ---- *)
-Lemma lin_init cfg allow U0 a0 reqs : Inv U0 a0 -> fresh_distinct U0 reqs ->
-  linv cfg allow reqs a0 (init_sys AStoreB hresp a0 (handlers cfg allow reqs)) [].
+Lemma lin_init (Rr : resp_rel) cfg allow U0 a0 reqs : Inv U0 a0 -> fresh_distinct U0 reqs ->
+  linv Rr cfg allow reqs a0 (init_sys AStoreB hresp a0 (handlers cfg allow reqs)) [].
 Proof.
   intros HI [Hnd Hfr]. unfold linv. cbn [seq_run fst snd owner db th init_sys].
   split; [reflexivity|]. split; [unfold handlers; rewrite !map_length; reflexivity|]. split; [constructor|].
@@ -645,23 +697,29 @@ Proof.
   - intros cc H1 H2. contradiction.
 Qed.
 
-Lemma lin_run cfg allow U0 reqs a0 sch : cfg_ok cfg -> fresh_distinct U0 reqs ->
-  forall c done, linv cfg allow reqs a0 c done -> wfree AStoreB reqs c sch ->
-  linv cfg allow reqs a0 (crun AStoreB hresp c sch) (lin_order c sch done).
+Lemma lin_run (Rr : resp_rel) cfg allow U0 reqs a0 sch : (forall rq r, Rr rq r r) -> cfg_ok cfg -> fresh_distinct U0 reqs ->
+  forall c done, linv Rr cfg allow reqs a0 c done -> wfree AStoreB reqs c sch \/ admits_window Rr allow ->
+  linv Rr cfg allow reqs a0 (crun AStoreB hresp c sch) (lin_order c sch done).
 Proof.
-  intros Hcfg Hfd. induction sch as [|i sch IH]; intros c done Hl Hw; cbn [crun lin_order]; [exact Hl|].
-  cbn [wfree] in Hw. destruct Hw as [Hw1 Hw2].
-  destruct (cstep AStoreB hresp c i) as [c'|] eqn:Hst; [|apply IH; assumption].
-  apply IH; [|exact Hw2]. apply (lin_step cfg allow U0 reqs a0 c done i c' Hcfg Hfd Hl Hst Hw1).
+  intros Hrefl Hcfg Hfd. induction sch as [|i sch IH]; intros c done Hl Hw; cbn [crun lin_order]; [exact Hl|].
+  assert (Hw1 : window_free_at reqs c i \/ admits_window Rr allow).
+  { destruct Hw as [Hw|Hw]; [left; cbn [wfree] in Hw; destruct Hw as [Hw _]; exact Hw|right; exact Hw]. }
+  destruct (cstep AStoreB hresp c i) as [c'|] eqn:Hst.
+  - apply IH.
+    + apply (lin_step Rr cfg allow U0 reqs a0 c done i c' Hrefl Hcfg Hfd Hl Hst Hw1).
+    + destruct Hw as [Hw|Hw]; [left; cbn [wfree] in Hw; rewrite Hst in Hw; destruct Hw as [_ Hw]; exact Hw|right; exact Hw].
+  - apply IH; [exact Hl|].
+    destruct Hw as [Hw|Hw]; [left; cbn [wfree] in Hw; rewrite Hst in Hw; destruct Hw as [_ Hw]; exact Hw|right; exact Hw].
 Qed.
 
 (* what the invariant says to a reader *)
 Definition all_done {B R} (c : sys B R) : Prop := forall i t, nth_error (th c) i = Some t -> exists r, t = TDone r.
 
-Lemma linv_reading cfg allow reqs a0 c done : linv cfg allow reqs a0 c done ->
+Lemma linv_reading (Rr : resp_rel) cfg allow reqs a0 c done : linv Rr cfg allow reqs a0 c done ->
   let sr := seq_run AStoreB hresp a0 (handlers cfg allow reqs) done in
   NoDup done /\
-  (forall i r, nth_error (th c) i = Some (TDone r) -> In i done /\ resp_in hresp (fst sr) i = Some r) /\
+  (forall i r, nth_error (th c) i = Some (TDone r) ->
+     In i done /\ exists er r0, nth_error reqs i = Some er /\ resp_in hresp (fst sr) i = Some r0 /\ Rr (snd er) r0 r) /\
   ext (snd sr) (db c) /\ a_ok (snd sr) = true /\ a_ok (db c) = true /\
   (all_done c -> forall cc, a_cl (snd sr) cc = a_cl (db c) cc).
 Proof.
@@ -674,7 +732,8 @@ Proof.
     destruct (nth_error phs i) as [ph|] eqn:Hpi; [|apply nth_error_None in Hpi; lia].
     destruct (Hth i er ph Hri Hpi) as [Hti Hpk]. rewrite Hi in Hti.
     destruct ph as [|cc p d|cc p d|r'|r']; cbn [pstate] in Hti; inversion Hti; subst r'. cbn [pok] in Hpk.
-    split; [|exact Hpk].
+    destruct Hpk as (r0 & Hr0 & HRr).
+    split; [|exists er, r0; auto].
     destruct (in_dec Nat.eq_dec i done) as [Hin|Hnin]; [exact Hin|].
     pose proof (resp_in_not_done AStoreB hresp a0 (handlers cfg allow reqs) done i Hnin) as Hx. fold sr in Hx. congruence.
   - intros Hall cc. destruct (He cc) as [Heq|[H1 H2]]; [exact Heq|]. exfalso.
@@ -686,13 +745,13 @@ Proof.
 Qed.
 
 (* LINEARIZABILITY on the abstract store, at the granularity of whole transactions *)
-Theorem lin_abstract cfg allow U0 a0 reqs sch : cfg_ok cfg -> Inv U0 a0 -> fresh_distinct U0 reqs ->
+Theorem lin_abstract (Rr : resp_rel) cfg allow U0 a0 reqs sch : (forall rq r, Rr rq r r) -> cfg_ok cfg -> Inv U0 a0 -> fresh_distinct U0 reqs ->
   let c0 := init_sys AStoreB hresp a0 (handlers cfg allow reqs) in
-  wfree AStoreB reqs c0 sch ->
-  linv cfg allow reqs a0 (crun AStoreB hresp c0 sch) (lin_order c0 sch []).
+  wfree AStoreB reqs c0 sch \/ admits_window Rr allow ->
+  linv Rr cfg allow reqs a0 (crun AStoreB hresp c0 sch) (lin_order c0 sch []).
 Proof.
-  intros Hcfg HI Hfd c0 Hw. apply (lin_run cfg allow U0 reqs a0 sch Hcfg Hfd); [|exact Hw].
-  apply (lin_init cfg allow U0 a0 reqs HI Hfd).
+  intros Hrefl Hcfg HI Hfd c0 Hw. apply (lin_run Rr cfg allow U0 reqs a0 sch Hrefl Hcfg Hfd); [|exact Hw].
+  apply (lin_init Rr cfg allow U0 a0 reqs HI Hfd).
 Qed.
 
 (* ---- the order respects real time ---- *)
@@ -916,6 +975,63 @@ Definition linearized (k : bk) (cfg : config) (allow : option (list id)) (reqs :
   exists a' a, bk_rel k a' (snd sr) /\ bk_rel k a (db c) /\ a_ok a' = true /\ a_ok a = true /\ ext a' a /\
     (all_done c -> forall cc, a_cl a' cc = a_cl a cc).
 
+(* the same with the responses related by Rr instead of equal *)
+Definition linearized_g (Rr : resp_rel) (k : bk) (cfg : config) (allow : option (list id)) (reqs : list (env * hreq))
+  (d0 : b_st (bk_backend k)) (c : sys (bk_backend k) hresp) (order : list nat) : Prop :=
+  let sr := seq_run (bk_backend k) hresp d0 (handlers cfg allow reqs) order in
+  NoDup order /\
+  (forall i r, nth_error (th c) i = Some (TDone r) ->
+     In i order /\ exists er r0, nth_error reqs i = Some er /\ resp_in hresp (fst sr) i = Some r0 /\ Rr (snd er) r0 r) /\
+  exists a' a, bk_rel k a' (snd sr) /\ bk_rel k a (db c) /\ a_ok a' = true /\ a_ok a = true /\ ext a' a /\
+    (all_done c -> forall cc, a_cl a' cc = a_cl a cc).
+
+Lemma linearized_strict k cfg allow reqs d0 c order :
+  linearized_g strict_rel k cfg allow reqs d0 c order -> linearized k cfg allow reqs d0 c order.
+Proof.
+  intros (Hnd & Hr & Hs). split; [exact Hnd|]. split; [|exact Hs].
+  intros i r Hi. destruct (Hr i r Hi) as (Hin & er & r0 & _ & Hr0 & Heq). unfold strict_rel in Heq. subst r0. auto.
+Qed.
+
+(* every interleaving of whole transactions on a concrete backend, from any reachable store;
+   the hypothesis on the schedule is stated on the run of the abstract store *)
+Theorem lin_coarse_g (Rr : resp_rel) k cfg allow U0 a0 d0 reqs sch : (forall rq r, Rr rq r r) ->
+  cfg_ok cfg -> Inv U0 a0 -> bk_rel k a0 d0 -> fresh_distinct U0 reqs ->
+  wfree AStoreB reqs (init_sys AStoreB hresp a0 (handlers cfg allow reqs)) sch \/ admits_window Rr allow ->
+  let s0 := init_sys (bk_backend k) hresp d0 (handlers cfg allow reqs) in
+  linearized_g Rr k cfg allow reqs d0 (crun (bk_backend k) hresp s0 sch) (lin_order s0 sch []).
+Proof.
+  intros Hrefl Hcfg HI HR Hfd Hwa s0.
+  set (H := handlers cfg allow reqs) in *.
+  set (ca0 := init_sys AStoreB hresp a0 H) in *.
+  assert (Hrel0 : bk_rel k (db ca0) (db s0) /\ Forall2 (trel (bk_backend k) hresp) (th ca0) (th s0))
+    by (split; [exact HR|apply init_trel]).
+  assert (Hok : a_ok (db (crun AStoreB hresp ca0 sch)) = true).
+  { pose proof (cinv_run cfg allow U0 reqs sch Hcfg Hfd ca0 (cinv_init cfg allow U0 a0 reqs HI Hfd)) as Hc.
+    destruct Hc as (_ & _ & W & (Hok & _) & _). exact Hok. }
+  destruct (bk_crun_sim k hresp sch ca0 s0 Hrel0 Hok) as [Hdb Hth].
+  pose proof (lin_abstract Rr cfg allow U0 a0 reqs sch Hrefl Hcfg HI Hfd Hwa) as Hl. fold H in Hl. fold ca0 in Hl.
+  rewrite (bk_lin_order_sim k sch ca0 s0 [] Hrel0 Hok).
+  destruct (linv_reading Rr cfg allow reqs a0 _ _ Hl) as (Hnd & Hresp & He & Hok' & Hoka & Hall). fold H in Hresp, He, Hok', Hall.
+  destruct (bk_seq_run_sim k H (lin_order ca0 sch []) a0 d0 HR Hok') as [Hf Hs].
+  unfold linearized_g. fold H. rewrite Hf.
+  split; [exact Hnd|]. split.
+  - intros i r Hi. apply Hresp.
+    pose proof (forall2_nth (trel (bk_backend k) hresp) _ _ i Hth) as Hn. rewrite Hi in Hn.
+    destruct (nth_error (th (crun AStoreB hresp ca0 sch)) i) as [ta|]; [|contradiction]. inversion Hn; subst. reflexivity.
+  - eexists. eexists. split; [exact Hs|]. split; [exact Hdb|]. split; [exact Hok'|]. split; [exact Hoka|]. split; [exact He|].
+    intros Hd. apply Hall. intros i t Hi.
+    pose proof (forall2_nth (trel (bk_backend k) hresp) _ _ i Hth) as Hn. rewrite Hi in Hn.
+    destruct (nth_error (th (crun (bk_backend k) hresp s0 sch)) i) as [tb|] eqn:Htb; [|contradiction].
+    destruct (Hd i tb Htb) as [r Hr]. subst tb. inversion Hn; subst. eauto.
+Qed.
+
+Lemma strict_refl : forall (rq : hreq) (r : hresp), strict_rel rq r r.
+Proof. intros rq r. reflexivity. Qed.
+Lemma win_refl allow : forall (rq : hreq) (r : hresp), win_rel allow rq r r.
+Proof. intros rq r. left. reflexivity. Qed.
+Lemma win_admits allow : admits_window (win_rel allow) allow.
+Proof. intros rq Hs Ha. right. auto. Qed.
+
 (* every interleaving of whole transactions, on a concrete backend, from any reachable store *)
 Theorem lin_coarse k cfg allow U0 a0 d0 reqs sch : cfg_ok cfg -> Inv U0 a0 -> bk_rel k a0 d0 -> fresh_distinct U0 reqs ->
   let s0 := init_sys (bk_backend k) hresp d0 (handlers cfg allow reqs) in
@@ -930,22 +1046,9 @@ Proof.
   assert (Hok : a_ok (db (crun AStoreB hresp ca0 sch)) = true).
   { pose proof (cinv_run cfg allow U0 reqs sch Hcfg Hfd ca0 (cinv_init cfg allow U0 a0 reqs HI Hfd)) as Hc.
     destruct Hc as (_ & _ & W & (Hok & _) & _). exact Hok. }
-  destruct (bk_crun_sim k hresp sch ca0 s0 Hrel0 Hok) as [Hdb Hth].
   pose proof (bk_wfree_sim k reqs sch ca0 s0 Hrel0 Hok Hw) as Hwa.
-  pose proof (lin_abstract cfg allow U0 a0 reqs sch Hcfg HI Hfd Hwa) as Hl. fold H in Hl. fold ca0 in Hl.
-  rewrite (bk_lin_order_sim k sch ca0 s0 [] Hrel0 Hok).
-  destruct (linv_reading cfg allow reqs a0 _ _ Hl) as (Hnd & Hresp & He & Hok' & Hoka & Hall). fold H in Hresp, He, Hok', Hall.
-  destruct (bk_seq_run_sim k H (lin_order ca0 sch []) a0 d0 HR Hok') as [Hf Hs].
-  unfold linearized. fold H. rewrite Hf.
-  split; [exact Hnd|]. split.
-  - intros i r Hi. apply Hresp.
-    pose proof (forall2_nth (trel (bk_backend k) hresp) _ _ i Hth) as Hn. rewrite Hi in Hn.
-    destruct (nth_error (th (crun AStoreB hresp ca0 sch)) i) as [ta|]; [|contradiction]. inversion Hn; subst. reflexivity.
-  - eexists. eexists. split; [exact Hs|]. split; [exact Hdb|]. split; [exact Hok'|]. split; [exact Hoka|]. split; [exact He|].
-    intros Hd. apply Hall. intros i t Hi.
-    pose proof (forall2_nth (trel (bk_backend k) hresp) _ _ i Hth) as Hn. rewrite Hi in Hn.
-    destruct (nth_error (th (crun (bk_backend k) hresp s0 sch)) i) as [tb|] eqn:Htb; [|contradiction].
-    destruct (Hd i tb Htb) as [r Hr]. subst tb. inversion Hn; subst. eauto.
+  apply linearized_strict.
+  apply (lin_coarse_g strict_rel k cfg allow U0 a0 d0 reqs sch strict_refl Hcfg HI HR Hfd). left. exact Hwa.
 Qed.
 
 (* every fine-grained schedule (one step per storage call), whenever no transaction is open: the
@@ -1173,29 +1276,8 @@ Theorem lin_coarse_a k cfg allow U0 a0 d0 reqs sch : cfg_ok cfg -> Inv U0 a0 -> 
   let s0 := init_sys (bk_backend k) hresp d0 (handlers cfg allow reqs) in
   linearized k cfg allow reqs d0 (crun (bk_backend k) hresp s0 sch) (lin_order s0 sch []).
 Proof.
-  intros Hcfg HI HR Hfd Hwa s0.
-  set (H := handlers cfg allow reqs) in *.
-  set (ca0 := init_sys AStoreB hresp a0 H) in *.
-  assert (Hrel0 : bk_rel k (db ca0) (db s0) /\ Forall2 (trel (bk_backend k) hresp) (th ca0) (th s0))
-    by (split; [exact HR|apply init_trel]).
-  assert (Hok : a_ok (db (crun AStoreB hresp ca0 sch)) = true).
-  { pose proof (cinv_run cfg allow U0 reqs sch Hcfg Hfd ca0 (cinv_init cfg allow U0 a0 reqs HI Hfd)) as Hc.
-    destruct Hc as (_ & _ & W & (Hok & _) & _). exact Hok. }
-  destruct (bk_crun_sim k hresp sch ca0 s0 Hrel0 Hok) as [Hdb Hth].
-  pose proof (lin_abstract cfg allow U0 a0 reqs sch Hcfg HI Hfd Hwa) as Hl. fold H in Hl. fold ca0 in Hl.
-  rewrite (bk_lin_order_sim k sch ca0 s0 [] Hrel0 Hok).
-  destruct (linv_reading cfg allow reqs a0 _ _ Hl) as (Hnd & Hresp & He & Hok' & Hoka & Hall). fold H in Hresp, He, Hok', Hall.
-  destruct (bk_seq_run_sim k H (lin_order ca0 sch []) a0 d0 HR Hok') as [Hf Hs].
-  unfold linearized. fold H. rewrite Hf.
-  split; [exact Hnd|]. split.
-  - intros i r Hi. apply Hresp.
-    pose proof (forall2_nth (trel (bk_backend k) hresp) _ _ i Hth) as Hn. rewrite Hi in Hn.
-    destruct (nth_error (th (crun AStoreB hresp ca0 sch)) i) as [ta|]; [|contradiction]. inversion Hn; subst. reflexivity.
-  - eexists. eexists. split; [exact Hs|]. split; [exact Hdb|]. split; [exact Hok'|]. split; [exact Hoka|]. split; [exact He|].
-    intros Hd. apply Hall. intros i t Hi.
-    pose proof (forall2_nth (trel (bk_backend k) hresp) _ _ i Hth) as Hn. rewrite Hi in Hn.
-    destruct (nth_error (th (crun (bk_backend k) hresp s0 sch)) i) as [tb|] eqn:Htb; [|contradiction].
-    destruct (Hd i tb Htb) as [r Hr]. subst tb. inversion Hn; subst. eauto.
+  intros Hcfg HI HR Hfd Hwa s0. apply linearized_strict.
+  apply (lin_coarse_g strict_rel k cfg allow U0 a0 d0 reqs sch strict_refl Hcfg HI HR Hfd). left. exact Hwa.
 Qed.
 
 (* requests whose AddSnapshot clients already have a version: linearizable under EVERY
@@ -1212,4 +1294,31 @@ Proof.
   pose proof (lin_coarse_a k cfg allow U0 a0 d0 reqs (csched (bk_backend k) hresp s0 sch) Hcfg HI HR Hfd
                 (wfree_existing cfg allow U0 a0 reqs _ Hcfg HI Hfd Hex)) as Hl. fold s0 in Hl.
   unfold linearized in *. unfold all_done in *. rewrite Hdb, Hth. exact Hl.
+Qed.
+
+
+(* ---- EVERY schedule, new clients and AddSnapshot requests included: finding F3 is the only deviation ----
+   With no hypothesis on the schedule at all, the overlapping run is linearized up to `win_rel`: the
+   final store is the one-at-a-time store, every response equals the one-at-a-time response, except
+   that an AddSnapshot request may have been answered 200 (declined, nothing stored) where the
+   one-at-a-time run answers it 404 (no such client). *)
+Theorem lin_coarse_window k cfg allow U0 a0 d0 reqs sch : cfg_ok cfg -> Inv U0 a0 -> bk_rel k a0 d0 -> fresh_distinct U0 reqs ->
+  let s0 := init_sys (bk_backend k) hresp d0 (handlers cfg allow reqs) in
+  linearized_g (win_rel allow) k cfg allow reqs d0 (crun (bk_backend k) hresp s0 sch) (lin_order s0 sch []).
+Proof.
+  intros Hcfg HI HR Hfd s0.
+  apply (lin_coarse_g (win_rel allow) k cfg allow U0 a0 d0 reqs sch (win_refl allow) Hcfg HI HR Hfd).
+  right. apply win_admits.
+Qed.
+
+Theorem lin_fine_window k cfg allow U0 a0 d0 reqs sch : cfg_ok cfg -> Inv U0 a0 -> bk_rel k a0 d0 -> fresh_distinct U0 reqs ->
+  let s0 := init_sys (bk_backend k) hresp d0 (handlers cfg allow reqs) in
+  owner (frun (bk_backend k) hresp s0 sch) = None ->
+  linearized_g (win_rel allow) k cfg allow reqs d0 (frun (bk_backend k) hresp s0 sch)
+               (lin_order s0 (csched (bk_backend k) hresp s0 sch) []).
+Proof.
+  intros Hcfg HI HR Hfd s0 Hq.
+  destruct (txn_atomic_quiescent (bk_backend k) hresp sch s0 (init_wf _ _ d0 (handlers cfg allow reqs)) eq_refl Hq) as [Hdb Hth].
+  pose proof (lin_coarse_window k cfg allow U0 a0 d0 reqs (csched (bk_backend k) hresp s0 sch) Hcfg HI HR Hfd) as Hl. fold s0 in Hl.
+  unfold linearized_g in *. unfold all_done in *. rewrite Hdb, Hth. exact Hl.
 Qed.
